@@ -161,6 +161,35 @@ def templates(F, S, rng):
     return T
 
 
+def queries(F):
+    Q = [('channels', lambda s: s.channels), ('range()', lambda s: s.range()), ('range(0)', lambda s: s.range(0)),
+         ('resolution', lambda s: s.resolution()), ('amp_type', lambda s: s.amplification_type()),
+         ('gain', lambda s: s.amplifier_gain([0, 1])), ('voltage', lambda s: s.detector_voltage()),
+         ('labels', lambda s: s.channel_labels()), ('text', lambda s: dict(s.text)), ('acq_time', lambda s: s.acquisition_time),
+         ('time_step', lambda s: s.time_step), ('start', lambda s: s.acquisition_start_time)]
+    for sc in ('linear', 'log', 'logicle'):
+        Q.append(('hist_bins:' + sc, lambda s, sc=sc: s.hist_bins([0, 1], 16, sc)))
+        Q.append(('hist_bins1:' + sc, lambda s, sc=sc: s.hist_bins(0, None if sc == 'linear' else 32, sc)))
+        Q.append(('density2d:' + sc, lambda s, sc=sc: np.asarray(F.gate.density2d(s, [0, 1], 8, 0.6, sc, sc, 1.0))))
+        Q.append(('plot.hist1d:' + sc, lambda s, sc=sc: (F.plot.hist1d(s, 0, sc, bins=16), None)[1]))
+        Q.append(('plot.scatter2d:' + sc, lambda s, sc=sc: (F.plot.scatter2d(s, [0, 1], sc, sc), None)[1]))
+        Q.append(('logicle-params:' + sc, lambda s, sc=sc: (lambda t: (t.T, t.M, t.W))(F.plot._LogicleTransform(data=s, channel=0))))
+    for st in ('mean', 'gmean', 'median', 'std', 'iqr', 'rcv', 'mode'):
+        Q.append(('stats.' + st, lambda s, st=st: getattr(F.stats, st)(s, [0, 1])))
+    Q += [('high_low', lambda s: np.asarray(F.gate.high_low(s))), ('high_low-mask', lambda s: F.gate.high_low(s, [0], full_output=True).mask),
+          ('start_end', lambda s: np.asarray(F.gate.start_end(s, 3, 3))), ('to_rfi', lambda s: F.transform.to_rfi(s)),
+          ('to_rfi-range', lambda s: F.transform.to_rfi(s, [0]).range()), ('slice', lambda s: s[:, [1, 0]]),
+          ('slice-range', lambda s: s[:, 0].range()), ('copy', lambda s: s.copy()), ('sum', lambda s: s.sum(axis=0)),
+          ('selection_std', lambda s: F.mef.selection_std([s[:20, 0], s[20:, 0]], scale='log')),
+          ('selection_std-logicle', lambda s: F.mef.selection_std([s[:20, 0], s[20:, 0]])),
+          ('pickle', lambda s: __import__('pickle').loads(__import__('pickle').dumps(s))),
+          ('logicle-inverse', lambda s: np.asarray(F.plot._LogicleTransform(data=s, channel=0).inverted().transform_non_affine(
+              np.asarray(s[:, 0], dtype=float), mask_out_of_range=False))),
+          ('clustering_gmm:logicle', lambda s: np.asarray(F.mef.clustering_gmm(s[:, [0, 1]], 2, scale='logicle'))),
+          ('selection_std-spread', lambda s: F.mef.selection_std([s[np.argsort(np.asarray(s[:, 0]))[i::4], 0] for i in range(4)]))]
+    return Q
+
+
 def random_plot_call(F, S, rng):
     """A random, valid combination of options of one plotting function -> (qualified name, label, thunk).
     The thunk owns fresh mutable containers (lists, dicts) that stay caller-owned."""
@@ -420,30 +449,48 @@ def run(ctx):
                 ctx.check('RV-ALIAS' not in b.text and np.asarray(b.data)[0, 0] != np.asarray(a)[0, 0],
                           'alias:two-loads-share-state', cid, loader=loader)
         ctx.case_done(class_key=('alias', 'two-loads', spec['datatype']), nontrivial=True, distinct_key=core.digest(cid))
+    # ---- cross-object history against a FRESH PROCESS: what was loaded and queried earlier (other files, other ranges,
+    # other negative events) must not change the answers for a later sample (e.g. caches with incomplete keys)
+    import json as _json
+    import subprocess
+    import sys as _sys
+    from rv import freshq
+    qnames = [n for n, _ in queries(F) if n.split(':')[0] in ('hist_bins', 'hist_bins1', 'density2d', 'logicle-params', 'selection_std',
+                                                               'selection_std-logicle', 'high_low', 'range()', 'stats.median', 'to_rfi-range', 'logicle-inverse',
+                                                               'clustering_gmm', 'selection_std-spread')]
+    for cid, rng in ctx.cases([('fresh', r) for r in range(2 if ctx.tier == 'quick' else 24)]):
+        mon.cid = cid
+        # A and B share resolution / display parameters where a sloppy cache key would, but differ in what matters
+        if cid[1] % 2 == 0:
+            specA = zoo.float_spec(rng, n=60, d=3, negatives=True)
+            specB = zoo.float_spec(rng, n=60, d=3, negatives=True)
+            specB['events'] = [[v * 3.0 if v < 0 else v for v in row] for row in specB['events']]      # other most-negative event
+        else:
+            specA = zoo.int_spec(rng, n=60, d=3, res=1024, all_lin=True)
+            specB = zoo.int_spec(rng, n=60, d=3, res=262144, all_lin=True)
+        pa, pb = os.path.join(ctx.tmpdir, 'fresh_a.fcs'), os.path.join(ctx.tmpdir, 'fresh_b.fcs')
+        sa = zoo.write_and_load(F, specA, pa)
+        freshq.answers(F, sa, qnames)                       # earlier activity of this process, on another sample
+        sb = zoo.write_and_load(F, specB, pb)
+        here = freshq.answers(F, sb, qnames)
+        job, outp = os.path.join(ctx.tmpdir, 'fresh_job.json'), os.path.join(ctx.tmpdir, 'fresh_out.json')
+        with open(job, 'w') as fh:
+            _json.dump({'spec': {k: v for k, v in specB.items() if k != 'rng'}, 'path': pb, 'queries': qnames}, fh)
+        env = dict(os.environ, PYTHONPATH=core.VERIF, RV_REPO=core.repo_root(), MPLBACKEND='Agg')
+        pr = subprocess.run([_sys.executable, '-m', 'rv.freshq', job, outp], env=env, cwd=core.VERIF, capture_output=True, text=True, timeout=600)
+        if pr.returncode != 0 or not os.path.exists(outp):
+            ctx.note('fresh-process oracle failed (harness): ' + pr.stderr[-200:])
+            ctx.counters['oracle_errors'] += 1
+            continue
+        with open(outp) as fh:
+            there = _json.load(fh)
+        os.remove(outp)
+        for n in qnames:
+            ctx.counters['chk:history'] += 1
+            ctx.check(here[n] == there[n], 'history:answer-depends-on-earlier-activity-of-the-process', cid, query=n,
+                      kind='float' if cid[1] % 2 == 0 else 'int', here=here[n][:160], fresh=there[n][:160])
+        ctx.case_done(class_key=('fresh-process', 'float' if cid[1] % 2 == 0 else 'int'), nontrivial=True, distinct_key=core.digest(cid))
     # ---- (iii) history: ordered pairs of read-only queries ------------------------------------
-    def queries(F):
-        Q = [('channels', lambda s: s.channels), ('range()', lambda s: s.range()), ('range(0)', lambda s: s.range(0)),
-             ('resolution', lambda s: s.resolution()), ('amp_type', lambda s: s.amplification_type()),
-             ('gain', lambda s: s.amplifier_gain([0, 1])), ('voltage', lambda s: s.detector_voltage()),
-             ('labels', lambda s: s.channel_labels()), ('text', lambda s: dict(s.text)), ('acq_time', lambda s: s.acquisition_time),
-             ('time_step', lambda s: s.time_step), ('start', lambda s: s.acquisition_start_time)]
-        for sc in ('linear', 'log', 'logicle'):
-            Q.append(('hist_bins:' + sc, lambda s, sc=sc: s.hist_bins([0, 1], 16, sc)))
-            Q.append(('hist_bins1:' + sc, lambda s, sc=sc: s.hist_bins(0, None if sc == 'linear' else 32, sc)))
-            Q.append(('density2d:' + sc, lambda s, sc=sc: np.asarray(F.gate.density2d(s, [0, 1], 8, 0.6, sc, sc, 1.0))))
-            Q.append(('plot.hist1d:' + sc, lambda s, sc=sc: (F.plot.hist1d(s, 0, sc, bins=16), None)[1]))
-            Q.append(('plot.scatter2d:' + sc, lambda s, sc=sc: (F.plot.scatter2d(s, [0, 1], sc, sc), None)[1]))
-            Q.append(('logicle-params:' + sc, lambda s, sc=sc: (lambda t: (t.T, t.M, t.W))(F.plot._LogicleTransform(data=s, channel=0))))
-        for st in ('mean', 'gmean', 'median', 'std', 'iqr', 'rcv', 'mode'):
-            Q.append(('stats.' + st, lambda s, st=st: getattr(F.stats, st)(s, [0, 1])))
-        Q += [('high_low', lambda s: np.asarray(F.gate.high_low(s))), ('high_low-mask', lambda s: F.gate.high_low(s, [0], full_output=True).mask),
-              ('start_end', lambda s: np.asarray(F.gate.start_end(s, 3, 3))), ('to_rfi', lambda s: F.transform.to_rfi(s)),
-              ('to_rfi-range', lambda s: F.transform.to_rfi(s, [0]).range()), ('slice', lambda s: s[:, [1, 0]]),
-              ('slice-range', lambda s: s[:, 0].range()), ('copy', lambda s: s.copy()), ('sum', lambda s: s.sum(axis=0)),
-              ('selection_std', lambda s: F.mef.selection_std([s[:20, 0], s[20:, 0]], scale='log')),
-              ('selection_std-logicle', lambda s: F.mef.selection_std([s[:20, 0], s[20:, 0]])),
-              ('pickle', lambda s: __import__('pickle').loads(__import__('pickle').dumps(s)))]
-        return Q
     Q = queries(F)
     pairs = [(i, j) for i in range(len(Q)) for j in range(len(Q))]
     kinds = ('int', 'float')
